@@ -21,7 +21,9 @@ ASSUMPTIONS = ["every member subscribes to at least one topic and at least one t
                "retry, as Coordinator._join_and_sync arranges"]
 REACH_MIN = {"need_topic_partitions_path": {"quick": 50, "thorough": 500},
              "identical_subscriptions": {"quick": 200, "thorough": 2000},
-             "member_subscribed_to_nothing_with_partitions": {"quick": 30, "thorough": 300}}
+             "member_subscribed_to_nothing_with_partitions": {"quick": 30, "thorough": 300},
+             "e2e_leader_assignments": {"quick": 40, "thorough": 1000},
+             "e2e_assignments_after_partition_growth": {"quick": 8, "thorough": 200}}
 
 BATCH = 60
 ALPHABET = ["a", "A", "b", "B", "a1", "a10", "a2", "ab", "b-1", "m", "member-1", "member-10", "member-2", "Z", "z",
@@ -36,6 +38,9 @@ def cases(tier, seed):
         out.append(dict(kind="enumerate", seed=seed))
     else:
         out.append(dict(kind="enumerate_small", seed=seed))
+    # end to end: real group members, the same leader assigning twice with a partition added in between
+    for i in range({"quick": 24, "thorough": 600}[tier]):
+        out.append(dict(kind="e2e", seed=seed * 1000003 + 1500000 + i, profile="grow" if i % 3 else "rebalance"))
     return out
 
 
@@ -202,6 +207,27 @@ def check_config(res, proto, common, KafkaCodec, NeedTP, ids, subs, parts, rng, 
         res.sample = dict(members=ids, subscriptions=subs, partitions=parts, assignment=reference)
 
 
+def run_e2e(spec):
+    """The C16 monitor on a live group; only the clauses about the leader's assignment and what each member decodes
+    from it belong to this property."""
+    from . import c16
+    full = c16.run(spec)
+    res = Result()
+    res.inconclusive = list(full.inconclusive)
+    for v in full.violations:
+        if v["key"].startswith("assignment/"):
+            res.violate("e2e/" + v["key"], v["msg"], **v["witness"])
+    n = full.reach.get("leader_assignments_checked", 0)
+    res.hit("e2e_leader_assignments", n)
+    res.hit("e2e_assignments_after_partition_growth", 1 if (spec["profile"] == "grow" and n >= 2) else 0)
+    res.ob("e2e_leader_assignment_exact_cover", full.obligations.get("leader_assignment_exact_cover", 0))
+    res.ob("e2e_member_runs_exactly_its_assignment", full.obligations.get("member_runs_exactly_its_assignment", 0))
+    res.n_sub += 1
+    res.sigs = set(full.sigs)
+    res.sample = None
+    return res
+
+
 def run(spec):
     from afkak import _group, common
     from afkak.kafkacodec import KafkaCodec
@@ -209,6 +235,8 @@ def run(spec):
     proto = _group._ConsumerProtocol()
     NeedTP = _group._NeedTopicPartitions
     rng = random.Random(spec["seed"])
+    if spec["kind"] == "e2e":
+        return run_e2e(spec)
     if spec["kind"] == "random":
         for _ in range(spec["n"]):
             ids, subs, parts = gen_config(rng)
